@@ -1,4 +1,5 @@
-import GardenVerif.Lemmas.RefSem
+import GardenVerif.Props.C21
+import GardenVerif.Lemmas.Fixes
 /-!
 # C22 — `check --fix` edits are safe
 
@@ -24,7 +25,7 @@ set_option linter.unusedVariables false
 set_option linter.unusedSimpArgs false
 
 namespace C22
-open Validators RefSem
+open Validators RefSem Extract Fixes
 open Machine (Program Expr Dest BinOp)
 
 /-- Disjoint in-bounds fixes, in any order: `apply_fixes` computes the simultaneous substitution, no panic. -/
@@ -105,5 +106,136 @@ theorem repeated_bool_sound (a b : Bool) :
     RefSem.binop .or (vBool (a || b)) (vBool a) = RefSem.binop .or (vBool a) (vBool b) ∧
     RefSem.binop .and (vBool (a && b)) (vBool a) = RefSem.binop .and (vBool a) (vBool b) := by
   cases a <;> cases b <;> simp [RefSem.binop, vBool, Val.asBool]
+
+-- ------------------------------------------------------------------ whole-program schema theorems
+
+/-- The decision procedure implies the relation. -/
+theorem repeatedBoolCheck_sound (orig fixed : Program) (op : BinOp) (k t : Nat)
+    (h : repeatedBoolCheck orig fixed op k t = true) : IsRepeatedBoolFix orig fixed op k t := by
+  simp only [repeatedBoolCheck, Bool.and_eq_true, beq_iff_eq] at h
+  exact ⟨progEq_sound _ _ h.1, h.2⟩
+
+/-- WHOLE-PROGRAM soundness of the repeated-operand fix (closure-free restriction `cl = false`, hence
+`_partial`): if `fixed` is `orig` with one node `x op d` replaced by `x` — `x` a call-free pure chain of
+the strict Boolean operator `op`, `d` a copy of its `k`-th operand — anywhere in the program, then
+(1) a run of `fixed` that ends with fuel `n` is reproduced exactly (result, store, output) by `orig` with
+    fuel `2 * n`, unless `orig` ends with a type error (the removed operand was not a Bool);
+(2) a run of `orig` that ends with fuel `n`, not with a type error, is exactly the run of `fixed`.
+So when the original runs without error, the fixed program prints the same and ends the same.
+Lifted from the local lemma (`Fixes.local_rb`, from `repeated_bool_sound`'s absorption law and
+`Fixes.chain_absorb`) through arbitrary contexts by the congruence `C21.eval_congr_partial`. -/
+theorem repeated_bool_fix_sound_partial (orig fixed : Program) (op : BinOp) (k t : Nat)
+    (h : IsRepeatedBoolFix orig fixed op k t) :
+    (∀ n, isTO (run false fixed n).1 = false →
+      run false orig (2 * n) = run false fixed n ∨ (run false orig (2 * n)).1 = .err .typeError) ∧
+    (∀ n, isTO (run false orig n).1 = false →
+      run false fixed n = run false orig n ∨ (run false orig n).1 = .err .typeError) := by
+  have hf : ∀ r : Res, failedBy (some .typeError) r = true → r = .err .typeError := by
+    intro r hr; cases r <;> simp [failedBy] at hr ⊢; exact hr.symm
+  have hto : ∀ r : Res, r = .err .typeError → isTO r = false := by intro r hr; subst hr; rfl
+  have hc := C21.eval_congr_partial (rbCfg op k t) fixed (local_rb op k t fixed) (bokSeq_true _)
+  have hk : (rbCfg op k t).k + 1 = 2 := rfl
+  rw [hk, ← h.1] at hc
+  constructor
+  · intro n hn
+    rcases hc.1 n hn with h1 | h1
+    · left
+      have := C21.strip_invariant_partial orig (2 * n) (Or.inr (by rw [h1]; exact hn))
+      rw [← this, h1]
+    · right
+      have e := hf _ h1
+      have := C21.strip_invariant_partial orig (2 * n) (Or.inr (hto _ e))
+      rw [← this]; exact e
+  · intro n hn
+    have e := C21.strip_invariant_partial orig n (Or.inl hn)
+    rcases hc.2 n (by rw [e]; exact hn) with h1 | h1
+    · left; rw [h1, e]
+    · right; rw [← e]; exact hf _ h1
+
+/-- Observable form: when the original ends without a type error, the fixed program behaves the same. -/
+theorem repeated_bool_fix_behaviour_partial (orig fixed : Program) (op : BinOp) (k t : Nat)
+    (h : repeatedBoolCheck orig fixed op k t = true) (n : Nat)
+    (hn : (behaviour false orig n).1 ≠ .timeout) (he : (behaviour false orig n).1 ≠ .error .typeError) :
+    behaviour false fixed n = behaviour false orig n := by
+  have hto : isTO (run false orig n).1 = false := by
+    simp only [behaviour] at hn
+    cases h1 : (run false orig n).1 <;> simp_all [Res.outcome, isTO]
+  rcases (repeated_bool_fix_sound_partial orig fixed op k t (repeatedBoolCheck_sound _ _ _ _ _ h)).2 n hto with h1 | h1
+  · simp only [behaviour, h1]
+  · simp only [behaviour, h1, Res.outcome] at he; exact absurd rfl he
+
+/-- Non-trivial instance: `fun f(x, y) { x && y && x }` and the fixed `fun f(x, y) { x && y }` (fresh ids). -/
+example :
+    let orig : Program := ⟨[⟨"f", ["x", "y"], [.binop 5 true .and (.binop 3 true .and (.var 1 true "x") (.var 2 true "y"))
+      (.var 4 true "x")]⟩], [], []⟩
+    let fixed : Program := ⟨[⟨"f", ["x", "y"], [.binop 13 true .and (.var 11 true "x") (.var 12 true "y")]⟩], [], []⟩
+    repeatedBoolCheck orig fixed .and 0 13 = true := by
+  simp [repeatedBoolCheck, progEq, WP, WFun, WSeq, W, fin, stripCfg, rbCfg, rbWrap, operands, isBoolOp, arithE,
+    WCfg.i, WCfg.u, seqEq, exprEq, funsEq, funEq, enumsEq, hitsProg, hitsSeq, hits, hitsOf]
+
+/-- The decision procedure implies the relation. -/
+theorem unusedLiteralCheck_sound (orig fixed : Program) (sel : Nat → Bool)
+    (h : unusedLiteralCheck orig fixed sel = true) : IsUnusedLiteralFix orig fixed sel :=
+  progEq_sound _ _ h
+
+/-- WHOLE-PROGRAM soundness of the unused-literal fix (closure-free restriction, hence `_partial`): if
+`fixed` is `orig` with any set of int / string literal STATEMENTS that are not the last statement of
+their sequence deleted — in function bodies, nested blocks, loop bodies, match arms, anywhere — and no
+single sequence loses more than `K` statements (`dokProg`, decidable; any `K ≥` the number of fixes
+will do), then
+(1) a run of `orig` that ends with fuel `n` is exactly (result, store, output) the run of `fixed` with
+    the same fuel;
+(2) a run of `fixed` that ends with fuel `n` is exactly the run of `orig` with fuel `(K + 1) * n`.
+Lifted from the local lemma (`unused_literal_stmt_sound`: a literal statement costs one level of fuel
+and nothing else) by a dedicated pair of simulations (`Fixes.simDF_all`, `Fixes.simDB_all`): a deleted
+statement is not a node replacement, so `eval_congr_partial` does not apply to it. -/
+theorem unused_literal_fix_sound_partial (orig fixed : Program) (sel : Nat → Bool) (K : Nat)
+    (h : IsUnusedLiteralFix orig fixed sel) (hk : dokProg sel K orig = true) :
+    (∀ n, isTO (run false orig n).1 = false → run false fixed n = run false orig n) ∧
+    (∀ n, isTO (run false fixed n).1 = false → run false orig ((K + 1) * n) = run false fixed n) := by
+  simp only [dokProg, Bool.and_eq_true, List.all_eq_true] at hk
+  unfold IsUnusedLiteralFix at h
+  constructor
+  · intro n hn
+    have h1 := ((simDF_all sel orig n n (Nat.le_refl _)).seq [] St.init orig.toplevel).eq_of_not_to hn
+    have h1' : run false (delProg sel orig) n = run false orig n := h1.symm
+    have h2 := C21.strip_invariant_partial (delProg sel orig) n (Or.inl (by rw [h1']; exact hn))
+    have h3 := C21.strip_invariant_partial fixed n (Or.inr (by rw [h, h2, h1']; exact hn))
+    rw [← h3, h, h2, h1']
+  · intro n hn
+    have h3 := C21.strip_invariant_partial fixed n (Or.inl hn)
+    have h2 := C21.strip_invariant_partial (delProg sel orig) n (Or.inr (by rw [← h, h3]; exact hn))
+    have e : run false (delProg sel orig) n = run false fixed n := by rw [← h2, ← h, h3]
+    have hd : dels sel orig.toplevel ≤ K := by
+      have := hk.2; simp only [dokSeq, Bool.and_eq_true, decide_eq_true_eq] at this; exact this.1
+    have h1 := ((simDB_all hk.1 n).seq ((K + 1) * n) orig.toplevel (by simp only [dthr]; omega) hk.2
+      [] St.init).eq_of_not_to (by
+        show isTO (run false (delProg sel orig) n).1 = false
+        rw [e]; exact hn)
+    have h1' : run false (delProg sel orig) n = run false orig ((K + 1) * n) := h1
+    rw [← h1', e]
+
+/-- Observable form: when the original ends, the fixed program ends the same way and prints the same. -/
+theorem unused_literal_fix_behaviour_partial (orig fixed : Program) (sel : Nat → Bool) (K : Nat)
+    (h : unusedLiteralCheck orig fixed sel = true) (hk : dokProg sel K orig = true) (n : Nat)
+    (hn : (behaviour false orig n).1 ≠ .timeout) : behaviour false fixed n = behaviour false orig n := by
+  have hto : isTO (run false orig n).1 = false := by
+    simp only [behaviour] at hn
+    cases h1 : (run false orig n).1 <;> simp_all [Res.outcome, isTO]
+  simp only [behaviour,
+    (unused_literal_fix_sound_partial orig fixed sel K (unusedLiteralCheck_sound _ _ _ h) hk).1 n hto]
+
+/-- Non-trivial instance: `fun f() { 1  println("x")  "s"  2 }  f()` loses the statements `1` (node 1)
+and `"s"` (node 5); the last statement `2` stays even if selected. -/
+example :
+    let orig : Program := ⟨[⟨"f", [], [.int 1 false 1, .call 4 false (.var 2 true "println") [.str 3 true "x"],
+      .str 5 false "s", .int 6 true 2]⟩], [], [.call 8 true (.var 7 true "f") []]⟩
+    let fixed : Program := ⟨[⟨"f", [], [.call 13 false (.var 11 true "println") [.str 12 true "x"],
+      .int 14 true 2]⟩], [], [.call 16 true (.var 15 true "f") []]⟩
+    unusedLiteralCheck orig fixed (fun i => i == 1 || i == 5 || i == 6) = true ∧
+      dokProg (fun i => i == 1 || i == 5 || i == 6) 2 orig = true := by
+  simp [unusedLiteralCheck, progEq, WP, WFun, WSeq, W, fin, stripCfg, delProg, delFun, delSeq, delList, del,
+    delHere, isLit, Machine.Expr.id, WCfg.i, WCfg.u, seqEq, exprEq, funsEq, funEq, enumsEq, dokProg, dokSeq, dokL,
+    dok, dels]
 
 end C22
